@@ -309,12 +309,30 @@ def coq_eval(name, text, timeout=900):
     """Compile a generated case file under coq/cases and return its output."""
     d = os.path.join(COQ, 'cases')
     os.makedirs(d, exist_ok=True)
+    # one file per process: two runs of the same check at the same time (quick and
+    # thorough, or runs against different trees) must not overwrite each other's cases
+    orig = name
+    name = '%s_p%d' % (name, os.getpid())
     path = os.path.join(d, name + '.v')
     with open(path, 'w') as f:
         f.write(text)
     rc, out = sh(['bash', '-c', 'ulimit -s unlimited 2>/dev/null; exec coqc -Q . PA cases/%s.v' % name],
                  cwd=COQ, timeout=timeout)
-    return rc, out
+    for ext in ('.vo', '.vok', '.vos', '.glob', '.v') if rc == 0 else ('.vo', '.vok', '.vos', '.glob'):
+        try:
+            os.remove(os.path.join(d, name + ext))
+        except OSError:
+            pass
+    try:
+        os.remove(os.path.join(d, '.' + name + '.aux'))
+    except OSError:
+        pass
+    if rc != 0:                     # keep the failing case under its plain name for inspection
+        try:
+            os.replace(path, os.path.join(d, orig + '.v'))
+        except OSError:
+            pass
+    return rc, out.replace(name, orig)
 
 
 def coq_eval_many(named_texts, timeout=900):
